@@ -810,6 +810,5 @@ func ThroughReturns(v ssa.Value) []ssa.Value {
 	return out
 }
 
-
 // PkgCallers: see pkgCallers.
 func PkgCallers(fn *ssa.Function) []ssa.Instruction { return pkgCallers(fn) }
